@@ -134,6 +134,18 @@ def split_findings(ctx):
 
 
 # ---------------------------------------------------------------- evidence
+def jsonable(x, depth=0):
+    if depth > 12:
+        return str(x)
+    if isinstance(x, (str, int, float, bool)) or x is None:
+        return x
+    if isinstance(x, dict):
+        return {(k if isinstance(k, str) else str(k)): jsonable(v, depth + 1) for k, v in x.items()}
+    if isinstance(x, (list, tuple, set, frozenset)):
+        return [jsonable(v, depth + 1) for v in (sorted(x, key=str) if isinstance(x, (set, frozenset)) else x)]
+    return str(x)
+
+
 def write_evidence(ctx, level, new, kf, status):
     obligations = len(ctx.obligations)
     discharged = sum(1 for o in ctx.obligations if o[2])
@@ -179,7 +191,7 @@ def write_evidence(ctx, level, new, kf, status):
     os.makedirs(d, exist_ok=True)
     tmp = os.path.join(d, '.%s.json.tmp' % ctx.prop)
     with open(tmp, 'w') as f:
-        json.dump(ev, f, indent=1, default=str)
+        json.dump(jsonable(ev), f, indent=1)
     os.replace(tmp, os.path.join(d, '%s.json' % ctx.prop))
     return ev
 
